@@ -66,13 +66,25 @@ func popcount(m uint32) int {
 	return c
 }
 
-func (d *drv) start(t int, mask uint32, rnd *rand.Rand) {
+// full = ask the whole block of mapping questions (every sixth TLC behaviour and every random trace; the
+// masks repeat across behaviours), otherwise only the boundary numbers
+func (d *drv) start(t int, mask uint32, rnd *rand.Rand, full bool) {
 	d.mgr = markbits.NewMarkBitsManager(mask, "verif")
 	d.log.Reset(t, jc{"mask": bits(uint64(d.mgr.GetMask()))})
 	d.log.Emit("avail", jc{"n": d.mgr.AvailableMarkBitCount()})
 	pop := popcount(mask)
 	limit := uint64(1) << uint(pop) // first number that does not fit
 	// numbers: all small ones, the boundary, a few large ones
+	if !full {
+		for _, n := range []uint64{0, 1, limit - 1, limit, limit / 2} {
+			if n < 1<<32 {
+				d.mapNum(n)
+			}
+		}
+		d.mapMark(mask)
+		d.mapMark(mask | 1<<uint(rnd.Intn(32)))
+		return
+	}
 	for n := uint64(0); n < min(limit+2, 40); n++ {
 		d.mapNum(n)
 	}
@@ -107,7 +119,7 @@ func (d *drv) replay(t int, beh []map[string]any, rnd *rand.Rand) {
 	for _, op := range beh {
 		switch tracelog.Str(op["op"]) {
 		case "init":
-			d.start(t, fromBits(op["mask"]), rnd)
+			d.start(t, fromBits(op["mask"]), rnd, t%6 == 1)
 		case "next":
 			d.next()
 		case "block":
@@ -131,7 +143,7 @@ func (d *drv) random(t int, rnd *rand.Rand) {
 	case 3:
 		mask = 0xffff0000 >> uint(rnd.Intn(17)) // the shapes Felix is configured with
 	}
-	d.start(t, mask, rnd)
+	d.start(t, mask, rnd, true)
 	steps := 3 + rnd.Intn(40)
 	for i := 0; i < steps; i++ {
 		if rnd.Intn(4) == 0 {
